@@ -259,7 +259,11 @@ theorem multi_output_aligned (fs : List (String × String × (List Row → List 
 example : ((([("cnt", "k1", fCount 2 2), ("grp", "k2", fGap 2)] :
     List (String × String × (List Row → List Row))).map (·.1))).Nodup := by decide
 
-/-! ## 5. multi-output plugins: chunking independence and totality
+/-! ## 5. multi-output plugins: chunking independence, totality and contiguity
+
+The three theorems of this section are named `_partial` because they cover multi-output plugins
+whose outputs are all per-row window-local; multi-output plugins with group-forming outputs are in
+the property's quantifier too, and for them totality is false (§6).
 
 All outputs per-row window-local.  Every output then carries the intervals of the input rows, so
 all outputs admit exactly the same split times as the input itself (`split_map`): the first trial
@@ -270,21 +274,44 @@ the ten-trial give-up: no output invents intervals of its own, so outputs cannot
 /-- the chunks yielded under the output name `k`, in order, final flush included -/
 abbrev outputOf := @Overlap.outputOf
 
-theorem multi_overlap_whole (fs : List (String × String × (List Row → List Row))) (wl wr : Int) (cs : List Chunk)
+theorem multi_overlap_whole_partial (fs : List (String × String × (List Row → List Row))) (wl wr : Int) (cs : List Chunk)
     (hs : Stream cs) (hne : fs ≠ []) (hnd : (fs.map (·.1)).Nodup)
     (hf : ∀ p ∈ fs, WindowLocal p.2.2 wl wr) (hwl : 0 ≤ wl) (hwr : 0 ≤ wr) :
     ∃ ds, runOverlapMulti fs (wl, wr) cs = .ok ds ∧ ds.length = cs.length + 1 ∧
       ∀ p ∈ fs, (outputOf p.1 ds).length = ds.length ∧ allRows (outputOf p.1 ds) = p.2.2 (allRows cs) := by
   obtain ⟨G, hG⟩ := kernels_by_name (wl := wl) (wr := wr) hnd (fun p hp => hf p hp)
-  exact runOverlapMulti_whole hne hnd hG hwl hwr hs
+  obtain ⟨ds, h1, h2, h3⟩ := runOverlapMulti_whole hne hnd hG hwl hwr hs
+  exact ⟨ds, h1, h2, fun p hp => ⟨(h3 p hp).1, (h3 p hp).2.1⟩⟩
 
-/-- totality alone -/
-theorem multi_overlap_total (fs : List (String × String × (List Row → List Row))) (wl wr : Int) (cs : List Chunk)
+/-- totality alone ("partial": per-row outputs only; for group-forming outputs it is false, §6) -/
+theorem multi_overlap_total_partial (fs : List (String × String × (List Row → List Row))) (wl wr : Int) (cs : List Chunk)
     (hs : Stream cs) (hne : fs ≠ []) (hnd : (fs.map (·.1)).Nodup)
     (hf : ∀ p ∈ fs, WindowLocal p.2.2 wl wr) (hwl : 0 ≤ wl) (hwr : 0 ≤ wr) :
     ∃ ds, runOverlapMulti fs (wl, wr) cs = .ok ds := by
-  obtain ⟨ds, h, -⟩ := multi_overlap_whole fs wl wr cs hs hne hnd hf hwl hwr
+  obtain ⟨ds, h, -⟩ := multi_overlap_whole_partial fs wl wr cs hs hne hnd hf hwl hwr
   exact ⟨ds, h⟩
+
+/-- contiguity of a multi-output plugin ("partial": per-row outputs): the chunks yielded under
+every output name tile the run — the first starts where the first input chunk starts, each starts
+where its predecessor ended, the final flush ends where the last input chunk ends — one chunk per
+yielded dict; together with `multi_output_aligned` (all chunks of one dict share one range, for all
+inputs) this is "contiguous and mutually aligned at every step" -/
+theorem multi_output_contiguous_partial (fs : List (String × String × (List Row → List Row))) (wl wr : Int)
+    (cs : List Chunk) (hs : Stream cs) (hne : fs ≠ []) (hnd : (fs.map (·.1)).Nodup)
+    (hf : ∀ p ∈ fs, WindowLocal p.2.2 wl wr) (hwl : 0 ≤ wl) (hwr : 0 ≤ wr) :
+    ∃ ds c0 cl, runOverlapMulti fs (wl, wr) cs = .ok ds ∧ cs.head? = some c0 ∧ cs.getLast? = some cl ∧
+      ∀ p ∈ fs, (outputOf p.1 ds).length = ds.length ∧ Tiles c0.start cl.stop (outputOf p.1 ds) := by
+  obtain ⟨G, hG⟩ := kernels_by_name (wl := wl) (wr := wr) hnd (fun p hp => hf p hp)
+  obtain ⟨ds, h1, h2, h3⟩ := runOverlapMulti_whole hne hnd hG hwl hwr hs
+  obtain ⟨p0, hp0⟩ := List.exists_mem_of_ne_nil fs hne
+  obtain ⟨-, -, c0, cl, hc0, hcl, -⟩ := h3 p0 hp0
+  refine ⟨ds, c0, cl, h1, hc0, hcl, ?_⟩
+  intro p hp
+  obtain ⟨hl, -, c0', cl', hc0', hcl', ht⟩ := h3 p hp
+  rw [hc0] at hc0'; rw [hcl] at hcl'
+  simp only [Option.some.injEq] at hc0' hcl'
+  subst hc0' hcl'
+  exact ⟨hl, ht⟩
 
 example : ([("cnt", "k1", fCount 2 1), ("sum", "k2", fSum 2 1)] : List (String × String × (List Row → List Row))) ≠ [] ∧
     (∀ p ∈ ([("cnt", "k1", fCount 2 1), ("sum", "k2", fSum 2 1)] : List (String × String × (List Row → List Row))),
